@@ -335,8 +335,10 @@ def check_solution(b, ev, named, key, info=None):
                 ok, _ = shown_ok(b, shown, unit, exact, W.tol_volume(rest))
                 b.stats['instr:checked'] += 1
                 if not ok:
+                    kf = (info or {}).get('known')
                     b.V('C19', 'solution_amount', key + ('solvent-volume',),
-                        f"{sol.name}: instruction says '{tail}', the aliquot of the solvent container is {float(exact / mult):.9g} {unit}")
+                        f"{sol.name}: instruction says '{tail}', the aliquot of the solvent container is {float(exact / mult):.9g} {unit}",
+                        kf['id'] if kf else None)
         return
     check_items(b, text.split(' to a ')[0], W.alpha_container(sol), key, 'solution_amount', sol.name)
 
